@@ -61,3 +61,11 @@ Example C03_relaxed_load_races : RA.race (gexec false true 2 (ginit 2) [(true, 0
 Proof. exact RAg.relaxed_load_races. Qed.
 Example C03_relaxed_worker_load_races : RA3.race3 (gexec3 false true 2 (ginit3 2) [(TP, 0); (TP, 0); (TP, 0); (TW, 1); (TW, 0)]) = true.
 Proof. exact RA3g.relaxed_worker_load_races. Qed.
+
+(** THREE stages with reset_index / detach / sync_index / attach on the WORKER and the consumer, under concurrency (Conc/RA3x.v) *)
+Require MRB.Conc.RA3xproof.
+Theorem C03_race_free_three_stages_reset_detached :
+  forall (len : nat) (script : list (RA3.tid * RA3x.cmd)), 0 < len -> RA3x.race3 (RA3x.exec3_x len (RA3x.init3_x len) script) = false.
+Proof. exact RA3xproof.pipeline3_x_race_free. Qed.
+Print Assumptions C03_race_free_three_stages_reset_detached.
+
